@@ -211,43 +211,132 @@ def s6_addr(F, S):
     S.ok("S6", "scan: %d casts, none exposes an address; no pointer comparison" % n)
 
 
-ALLOWED_CFG = re.compile(r'^\s*(test|doc|doctest|feature\s*=\s*"serde"|not\(\s*test\s*\)|not\(\s*feature\s*=\s*"serde"\s*\))\s*$')
+ALLOWED_CFG = re.compile(r'^\s*(test|doc|doctest|feature\s*=\s*"serde"|not\(\s*test\s*\)|not\(\s*feature\s*=\s*"serde"\s*\))\s*,?\s*$')
 
 
-def s7_cfg(repo_dir, S):
+BUILD_MACROS = {"env", "option_env", "include", "include_str", "include_bytes", "line", "column", "file", "module_path", "cfg_match", "cfg_select"}
+DEBUG_MACROS = {"debug_assert", "debug_assert_eq", "debug_assert_ne"}
+PURE_IN_ASSERT = {"is_finite", "is_nan", "is_infinite", "len", "is_empty", "abs", "is_some", "is_none", "period"}
+TARGET_IDENT = re.compile(r"^(size_of|size_of_val|align_of|align_of_val|swap_bytes|(from|to)_(ne|be|le)(_bytes)?|target_[a-z_]+)$")
+CONST_OK_IDENT = {"f64", "f32", "u8", "u16", "u32", "u64", "i8", "i16", "i32", "i64", "bool", "true", "false", "as", "core", "std", "consts",
+                  "INFINITY", "NEG_INFINITY", "EPSILON", "MAX", "MIN", "MIN_POSITIVE", "NAN", "PI", "E", "SQRT_2", "LN_2", "LN_10"}
+
+
+def s7_cfg(repo_dir, S, F=None):
     """conditional compilation: the analysis sees the configurations `default` and `serde` (debug profile).  Any other switch
-    (`debug_assertions`, target, an extra feature) would select code the analysis never looks at — the same source would behave
-    differently under another build, which no check here could notice."""
+    (`debug_assertions`, target, an extra feature, the build environment) would select code the analysis never looks at — the same
+    source would behave differently under another build, which no check here could notice.  Decided on the TOKENS of every file
+    under src/ (whatever its extension: `include!`d fragments too), so spacing, comments and string contents do not matter."""
     import os
+    import rustlex
     n = 0
+    nfiles = 0
+    consts_seen = {}
     for root, dirs, files in os.walk(os.path.join(repo_dir, "src")):
         dirs.sort()
         for fn in sorted(files):
-            if not fn.endswith(".rs"):
-                continue
             path = os.path.join(root, fn)
-            txt = open(path, encoding="utf-8", errors="replace").read()
-            # strip comments and string literals crudely but safely for this purpose (a `cfg` inside a string is not code)
-            code = re.sub(r'//[^\n]*|/\*.*?\*/|"(?:\\.|[^"\\])*"', lambda m: '""' if m.group(0).startswith('"') and "serde" not in m.group(0) else (m.group(0) if m.group(0).startswith('"') else ""), txt, flags=re.S)
-            for m in re.finditer(r'#!?\[\s*cfg\s*\(|cfg!\s*\(|#!?\[\s*cfg_attr\s*\(', code):
-                # balanced predicate
-                i = m.end()
-                depth, j = 1, i
-                while j < len(code) and depth:
-                    depth += code[j] == "("
-                    depth -= code[j] == ")"
-                    j += 1
-                pred = code[i:j - 1]
-                if "cfg_attr" in m.group(0):
-                    pred = pred.split(",", 1)[0]
-                n += 1
-                line = code.count("\n", 0, m.start()) + 1
-                rel = os.path.relpath(path, repo_dir)
-                if ALLOWED_CFG.match(pred):
-                    continue
-                S.bad("S7", "conditional-code", "%s:%s" % (rel, pred.strip()[:40]), "%s:%d: code selected by cfg(%s): the analysed configurations (default, serde; debug profile) do not cover every build of this source"
-                      % (rel, line, pred.strip()[:60]), "%s:%d" % (rel, line))
-    S.ok("S7", "scan: %d cfg predicates, all in {test, doc, feature = \"serde\"}" % n)
+            rel = os.path.relpath(path, repo_dir)
+            try:
+                toks = rustlex.tokens(open(path, encoding="utf-8", errors="replace").read())
+            except Exception as e:  # pragma: no cover
+                S.bad("S7", "unreadable-source", rel, "%s cannot be tokenised (%r): its conditional compilation is unknown" % (rel, e), rel)
+                continue
+            nfiles += 1
+
+            def bad(i, slug, what):
+                S.bad("S7", slug, "%s:%s" % (rel, what[:40]), "%s:%d: %s: the analysed configurations (default, serde; debug profile, this host) do not cover every build of this source" % (rel, toks[i][2], what), "%s:%d" % (rel, toks[i][2]))
+
+            def tk(i):
+                return toks[i][1] if 0 <= i < len(toks) else ""
+            for i, (kind, t, line) in enumerate(toks):
+                # attributes: # [!] [ name ( .. ) ]
+                if kind == "punct" and t == "#":
+                    j = i + 1
+                    if tk(j) == "!":
+                        j += 1
+                    if tk(j) == "[" and toks[j + 1][0] == "ident" if j + 1 < len(toks) else False:
+                        name = tk(j + 1)
+                        if name in ("cfg", "cfg_attr") and tk(j + 2) == "(":
+                            _, inner = rustlex.balanced(toks, j + 2)
+                            if name == "cfg_attr":
+                                depth, cut = 0, len(inner)
+                                for q, (k2, t2, _) in enumerate(inner):
+                                    depth += t2 in "([{" if k2 == "punct" else 0
+                                    depth -= t2 in ")]}" if k2 == "punct" else 0
+                                    if depth == 0 and k2 == "punct" and t2 == ",":
+                                        cut = q
+                                        break
+                                inner = inner[:cut]
+                            pred = rustlex.text(inner)
+                            n += 1
+                            if not ALLOWED_CFG.match(pred):
+                                bad(i, "conditional-code", "code selected by cfg(%s)" % pred[:60])
+                        elif name == "path":
+                            bad(i, "path-attribute", "#[path = ..] pulls in a module from a place this scan may not cover")
+                # macro calls: name ! ( / [ / {
+                if kind == "ident" and tk(i + 1) == "!" and tk(i + 2) in ("(", "[", "{"):
+                    if t == "cfg":
+                        _, inner = rustlex.balanced(toks, i + 2)
+                        pred = rustlex.text(inner)
+                        n += 1
+                        if not ALLOWED_CFG.match(pred):
+                            bad(i, "conditional-code", "code selected by cfg!(%s)" % pred[:60])
+                    elif t in BUILD_MACROS:
+                        bad(i, "build-environment", "%s!(..) takes a value from the build environment / file system" % t)
+                    elif t in DEBUG_MACROS:
+                        _, inner = rustlex.balanced(toks, i + 2)
+                        effect = None
+                        for q, (k2, t2, _) in enumerate(inner):
+                            nxt = inner[q + 1][1] if q + 1 < len(inner) else ""
+                            prv = inner[q - 1][1] if q else ""
+                            if k2 == "punct" and t2 == "=" and nxt != "=" and prv not in ("=", "<", ">", "!"):
+                                effect = "an assignment"
+                            elif k2 == "punct" and t2 == "{":
+                                effect = "a block"
+                            elif k2 == "ident" and t2 == "mut":
+                                effect = "a mutable borrow"
+                            elif k2 == "ident" and nxt == "(" and t2 not in PURE_IN_ASSERT:
+                                effect = "a call of `%s`" % t2
+                            elif k2 == "ident" and nxt == "!":
+                                effect = "a macro call"
+                            if effect:
+                                break
+                        n += 1
+                        if effect:
+                            bad(i, "debug-only-effect", "%s!(..) contains %s, which runs in debug builds only" % (t, effect))
+                # target-dependent constants
+                if kind == "ident" and (TARGET_IDENT.match(t) or (t in ("usize", "isize") and tk(i + 1) == "::" and tk(i + 2) in ("MAX", "MIN", "BITS"))):
+                    bad(i, "target-dependent", "`%s` has a target-dependent value" % (t if TARGET_IDENT.match(t) else t + "::" + tk(i + 2)))
+                # const items / inline const blocks: the initialiser must be spelt with literals
+                if kind == "ident" and t == "const":
+                    if tk(i + 1) == "{":
+                        bad(i, "const-block", "inline `const { .. }` block (evaluated on the build host)")
+                    elif i + 2 < len(toks) and toks[i + 1][0] == "ident" and tk(i + 1) not in ("fn", "unsafe", "extern", "async") and tk(i + 2) == ":" \
+                            and tk(i - 1) not in ("<", ",", "*"):
+                        # const NAME : ty = init ;   (not `const N: usize` in a generic parameter list, not `*const T`)
+                        j = i + 3
+                        depth = 0
+                        while j < len(toks) and not (depth == 0 and toks[j][0] == "punct" and toks[j][1] in ("=", ";")):
+                            depth += toks[j][1] in ("<", "(", "[") if toks[j][0] == "punct" else 0
+                            depth -= toks[j][1] in (">", ")", "]") if toks[j][0] == "punct" else 0
+                            j += 1
+                        if j < len(toks) and toks[j][1] == "=":
+                            k = j + 1
+                            init = []
+                            depth = 0
+                            while k < len(toks) and not (depth == 0 and toks[k][0] == "punct" and toks[k][1] == ";"):
+                                depth += toks[k][1] in ("(", "[", "{") if toks[k][0] == "punct" else 0
+                                depth -= toks[k][1] in (")", "]", "}") if toks[k][0] == "punct" else 0
+                                init.append(toks[k])
+                                k += 1
+                            foreign = [t2 for k2, t2, _ in init if not (k2 in ("num", "str", "char") or (k2 == "punct" and t2 in "+-*/().::,[]") or (k2 == "ident" and (t2 in CONST_OK_IDENT or t2 in consts_seen)))]
+                            n += 1
+                            if foreign:
+                                bad(i, "const-initialiser", "const %s is initialised with `%s` (not literals): its value is whatever the build host computes" % (tk(i + 1), rustlex.text(init)[:60]))
+                            else:
+                                consts_seen[tk(i + 1)] = True
+    S.ok("S7", "scan: %d files under src/ tokenised; %d cfg predicates / debug assertions / const initialisers, all within {test, doc, feature = \"serde\"}, side-effect free, literal" % (nfiles, n))
 
 
 RULES = [
@@ -280,7 +369,7 @@ def run(tier, repo=None, tag="repo"):
         if cfg == "default":
             import os
             from extract import REPO
-            rep.rule("S7", "conditional compilation only on test / doc / feature = \"serde\": every build of the source is one of the analysed configurations", 1)
+            rep.rule("S7", "conditional compilation only on test / doc / feature = \"serde\" (token-level scan of every file under src/): no other cfg, no debug-only side effect, no build-environment macro, no target-dependent constant, const items spelt with literals", 1)
             s7_cfg(os.path.abspath(repo or REPO), S)
         rep.functions.update(f.path for f in F.fns)
     rep.configs = configs
